@@ -784,3 +784,174 @@ def check_to_stack(run, tree, only=None):
         run.violated(construct, to.where(), "raises %s" % e, "repeated conversion")
     except ERR as e:
         run.unresolved(construct, to.where(), "cannot fold: %s" % e)
+
+
+# =============================================================================== thorough tier: the whole unit-pair space
+THOROUGH_UNITS = ("m", "cm", "km", "s", "g", "rad", "deg", "percent", "dimensionless", "m/s", "cm/s", "Hz", "1/s", "g/cm**3", "m**2")
+
+
+def check_unit_pair_space(run, tree, kinds=("strict", "free", "cmp", "strict-in", "free-in")):
+    """every ordered pair of %d units x every arithmetic, comparison and in-place operator: the result denotes the operation on the physical
+    quantities (or DimensionalityError exactly when the dimensions differ and the operator needs a common unit); one obligation per
+    operator, listing the failing pairs""" % len(THOROUGH_UNITS)
+    fi = tree.func("core/array.py::_binary_op")
+    run.analysed(fi)
+    A, B = rat(Poly.sym("A")), rat(Poly.sym("B"))
+    ops = [("+", "__add__", "strict", lambda pa, pb: pa + pb), ("-", "__sub__", "strict", lambda pa, pb: pa - pb),
+           ("*", "__mul__", "free", lambda pa, pb: pa * pb), ("/", "__truediv__", "free", lambda pa, pb: pa / pb),
+           ("<", "__lt__", "cmp", "lt"), ("==", "__eq__", "cmp", "eq"), (">=", "__ge__", "cmp", "ge"), ("!=", "__ne__", "cmp", "ne"),
+           ("+=", "__iadd__", "strict-in", lambda pa, pb: pa + pb), ("-=", "__isub__", "strict-in", lambda pa, pb: pa - pb),
+           ("*=", "__imul__", "free-in", lambda pa, pb: pa * pb), ("/=", "__itruediv__", "free-in", lambda pa, pb: pa / pb)]
+    for sym, dunder, kind, want in ops:
+        if kind not in kinds:
+            continue
+        construct = "core/array.py::Array[a %s b over %d x %d unit pairs]" % (sym, len(THOROUGH_UNITS), len(THOROUGH_UNITS))
+        bad, unres, n = [], [], 0
+        for u1 in THOROUGH_UNITS:
+            for u2 in THOROUGH_UNITS:
+                n += 1
+                try:
+                    hk = stack_hooks(tree)
+                    a, b = arr(tree, hk, "A", u1), arr(tree, hk, "B", u2)
+                    U1, U2 = UU.parse(u1), UU.parse(u2)
+                    pa, pb, buf = phys(a), phys(b), a._attrs["_array"]
+                    same_dim = U1.dims() == U2.dims()
+                    try:
+                        r = binop(tree, hk, a, dunder, b)
+                        outcome = "value"
+                    except (Raised, ProgramRaised) as e:
+                        r, outcome = None, "raises " + getattr(e, "name", str(e))
+                    if kind.startswith(("strict", "cmp")) and not same_dim:
+                        if outcome != "raises DimensionalityError":
+                            bad.append("%s, %s: %s (required DimensionalityError)" % (u1, u2, outcome if r is None else "returns a value"))
+                        elif not (phys(a) == pa and phys(b) == pb):
+                            bad.append("%s, %s: an operand was modified before the refusal" % (u1, u2))
+                        continue
+                    if outcome != "value":
+                        bad.append("%s, %s: %s" % (u1, u2, outcome))
+                        continue
+                    if kind == "cmp":
+                        v, u = r._attrs.get("_array"), r._attrs.get("_unit")
+                        ok = isinstance(v, RawV) and isinstance(v.r, tuple) and v.r[0] == want and v.r[1] * U1.scale() == pa - pb and isinstance(u, UU) and not u.mono
+                    else:
+                        ok = phys(r) == want(pa, pb) and phys(b) == pb
+                        if kind.endswith("-in"):
+                            ok = ok and r is a and a._attrs["_array"] is buf
+                        else:
+                            ok = ok and phys(a) == pa
+                        if kind.startswith("strict"):
+                            ok = ok and r._attrs.get("_unit") == U1
+                    if not ok:
+                        bad.append("%s, %s: result does not denote a %s b%s" % (u1, u2, sym, " in place" if kind.endswith("-in") else ""))
+                except ERR as e:
+                    unres.append("%s, %s: %s" % (u1, u2, e))
+        if unres:
+            run.unresolved(construct, fi.where(), "cannot fold %d pairs, e.g. %s" % (len(unres), unres[0]))
+        else:
+            run.ob(construct, not bad, fi.where(), ("%d of %d pairs wrong: " % (len(bad), n) + "; ".join(bad[:4])) if bad else "%d pairs: value, unit, refusal and operand integrity as required" % n,
+                   "a %s b is wrong for some pair of units (dimensionless family, equal-size aliases, compound units)" % sym)
+
+
+def check_to_pair_space(run, tree):
+    """x.to(u) over every ordered unit pair, Array and Vector: same physical quantity labelled u, or DimensionalityError exactly when the
+    dimensions differ; the receiver is never modified"""
+    ci = tree.cls(ARRAY_Q)
+    to = tree.method(ci, "to")
+    run.analysed(to)
+    for kind in ("Array", "Vector"):
+        construct = "%s.to[over %d x %d unit pairs]" % (ARRAY_Q if kind == "Array" else VECTOR_Q, len(THOROUGH_UNITS), len(THOROUGH_UNITS))
+        bad, unres, n = [], [], 0
+        for u0 in THOROUGH_UNITS:
+            for u1 in THOROUGH_UNITS:
+                n += 1
+                try:
+                    hk = stack_hooks(tree)
+                    same_dim = UU.parse(u0).dims() == UU.parse(u1).dims()
+                    if kind == "Array":
+                        objs = [arr(tree, hk, "A", u0)]
+                        call_ = lambda: [ModelEval(tree, to, {}, hk).invoke(to, [objs[0], u1], {}, None)]
+                    else:
+                        v = vec(tree, hk, "V", u0)
+                        objs = list(comps_of(tree, hk, v).values())
+                        vto = tree.method(v._cls, "to")
+                        call_ = lambda: list(comps_of(tree, hk, ModelEval(tree, vto, {}, hk).invoke(vto, [v, u1], {}, None)).values())
+                    before = [phys(o) for o in objs]
+                    try:
+                        outs = call_()
+                        outcome = "value"
+                    except (Raised, ProgramRaised) as e:
+                        outs, outcome = None, "raises " + getattr(e, "name", str(e))
+                    if [phys(o) for o in objs] != before and not all(x == y for x, y in zip([phys(o) for o in objs], before)):
+                        bad.append("%s -> %s: the receiver was modified" % (u0, u1))
+                    if not same_dim:
+                        if outcome != "raises DimensionalityError":
+                            bad.append("%s -> %s: %s (required DimensionalityError)" % (u0, u1, outcome))
+                        continue
+                    if outcome != "value":
+                        bad.append("%s -> %s: %s" % (u0, u1, outcome))
+                    elif not all(isinstance(r, PyObj) and phys(r) == p0 and r._attrs.get("_unit") == UU.parse(u1) for r, p0 in zip(outs, before)):
+                        bad.append("%s -> %s: another quantity or another label" % (u0, u1))
+                except ERR as e:
+                    unres.append("%s -> %s: %s" % (u0, u1, e))
+        if unres:
+            run.unresolved(construct, to.where(), "cannot fold %d pairs, e.g. %s" % (len(unres), unres[0]))
+        else:
+            run.ob(construct, not bad, to.where(), ("%d of %d pairs wrong: " % (len(bad), n) + "; ".join(bad[:4])) if bad else "%d pairs: quantity preserved, labelled as requested, incompatible pairs refused" % n,
+                   "x.to(u) changes the quantity, keeps the old label or accepts an incompatible unit for some pair")
+
+
+def check_vector_pair_space(run, tree):
+    """v op w for Vectors of 1-3 components over every ordered pair of units: component c of the result denotes v.c op w.c (or the operation
+    is refused exactly when the dimensions differ and the operator needs a common unit); right operands of the other kinds (Array, scalar,
+    Quantity) broadcast to every component"""
+    vfi = tree.func("core/vector.py::_binary_op")
+    run.analysed(vfi)
+    ops = [("+", "__add__", True, lambda a, b: a + b), ("-", "__sub__", True, lambda a, b: a - b), ("*", "__mul__", False, lambda a, b: a * b), ("/", "__truediv__", False, lambda a, b: a / b)]
+    units = THOROUGH_UNITS[:10]
+    for sym, dunder, strict, want in ops:
+        for rk in ("Vector", "Array", "Quantity"):
+            construct = "core/vector.py::Vector[v %s %s over %d x %d unit pairs, 1-3 components]" % (sym, rk, len(units), len(units))
+            bad, unres, n = [], [], 0
+            for ncomp in (3, 2, 1):
+                for u1 in units:
+                    for u2 in (units if ncomp == 3 else units[:4]):
+                        n += 1
+                        try:
+                            hk = stack_hooks(tree)
+                            v = vec(tree, hk, "V", u1, ncomp)
+                            cs = comps_of(tree, hk, v)
+                            if rk == "Vector":
+                                y = vec(tree, hk, "W", u2, ncomp)
+                                py = {c: phys(a_) for c, a_ in comps_of(tree, hk, y).items()}
+                            elif rk == "Array":
+                                y = arr(tree, hk, "B", u2)
+                                py = {c: phys(y) for c in cs}
+                            else:
+                                y = QQ(RawV(Poly.sym("Q")), UU.parse(u2))
+                                py = {c: y.magnitude.r * y.units.scale() for c in cs}
+                            pv = {c: phys(cs[c]) for c in cs}
+                            same_dim = UU.parse(u1).dims() == UU.parse(u2).dims()
+                            try:
+                                r = binop(tree, hk, v, dunder, y)
+                                outcome = "value"
+                            except (Raised, ProgramRaised) as e:
+                                r, outcome = None, "raises " + getattr(e, "name", str(e))
+                            if strict and not same_dim:
+                                if outcome != "raises DimensionalityError":
+                                    bad.append("%s, %s (%d): %s (required DimensionalityError)" % (u1, u2, ncomp, outcome))
+                                continue
+                            if outcome != "value":
+                                bad.append("%s, %s (%d): %s" % (u1, u2, ncomp, outcome))
+                                continue
+                            rc = comps_of(tree, hk, r)
+                            if sorted(rc) != sorted(cs) or not all(phys(rc[c]) == want(pv[c], py[c]) for c in cs):
+                                bad.append("%s, %s (%d): a component does not denote v.c %s w.c" % (u1, u2, ncomp, sym))
+                            elif not all(phys(cs[c]) == pv[c] for c in cs):
+                                bad.append("%s, %s (%d): the left operand was modified" % (u1, u2, ncomp))
+                        except ERR as e:
+                            unres.append("%s, %s (%d): %s" % (u1, u2, ncomp, e))
+            if unres:
+                run.unresolved(construct, vfi.where(), "cannot fold %d cases, e.g. %s" % (len(unres), unres[0]))
+            else:
+                run.ob(construct, not bad, vfi.where(), ("%d of %d cases wrong: " % (len(bad), n) + "; ".join(bad[:4])) if bad else "%d cases: every component denotes v.c %s w.c" % (n, sym),
+                       "a component is combined with another component, in another unit, or an incompatible operand is accepted")
